@@ -5,7 +5,16 @@ MODULES = {
     "C17": "harness.c17_gae",
 }
 
-CLAIMED = {}
+TECH = "symbolic execution of the real Python functions on z3-backed proxies (re-execution path exploration); each obligation decided per path by z3 as pc ∧ assumptions ∧ ¬obligation; sat models replayed on the real code"
+NOTE = "trusted: z3, CPython, the SymTensor proxy layer (differentially validated against real torch on every run), the listed stubs (networks/optimisers/RNG as arbitrary values within their contracts); floats are mathematical reals; sizes are the stated small bounds"
+
+CLAIMED = {
+    "C17": {
+        "level_text": "bounded symbolic verification of the real PPO.learn / IPPO.learn up to the minibatch loop: for all rewards, values, done flags, bootstrap values, log-probs, gamma, lambda at rollout shapes T<=3(5), envs<=2(3), agents<=2(3), the flattened rows handed to the minibatch loop carry, for every (agent, step, env), that triple's observation, action, old log-prob, old value and the GAE advantage/return defined by the statement's recursion (up to a permutation of rows)",
+        "level_note": NOTE,
+        "technique": TECH,
+    },
+}
 
 NOT_APPLICABLE = {
     "C01": "aliasing/independence of live nn.Module + optimizer object graphs over learn/mutate/clone histories and behavioural equality after real forward/backward passes: no encoding in which a solver verdict is the deciding step (DESIGN.md §5 C01)",
@@ -16,4 +25,4 @@ NOT_APPLICABLE = {
 
 # designed in DESIGN.md §5 but the check is not built/registered yet (moves to CLAIMED when it lands)
 PENDING = {pid: "solver-based check designed (DESIGN.md §5) but not yet built in this tree; not claimed until it is"
-           for pid in ["C03", "C04", "C05", "C06", "C08", "C09", "C10", "C11", "C12", "C13", "C14", "C15", "C16", "C17", "C18", "C19"]}
+           for pid in ["C03", "C04", "C05", "C06", "C08", "C09", "C10", "C11", "C12", "C13", "C14", "C15", "C16", "C18", "C19"]}
